@@ -129,10 +129,12 @@ func genScSpec(rng *rand.Rand, i int) scSpec {
 	tpls := []string{"", "r={{.PC_REPLICA_NUM}}", "v={{.LV}} r={{.PC_REPLICA_NUM}}", "g={{.GV}}-{{.PC_REPLICA_NUM}}", "n={{.GN}}", "ln={{.LN}}",
 		// integer variables used as numbers (comparison, %d): their type must be
 		// the same in a replica added by scaling as after a load (C13-r4-2)
-		"c={{if lt .PC_REPLICA_NUM 2}}lo{{else}}hi{{end}}", `p={{printf "%03d" .PC_REPLICA_NUM}}`, "e={{if eq .PC_REPLICA_NUM 0}}first{{end}}"}
+		"c={{if lt .PC_REPLICA_NUM 2}}lo{{else}}hi{{end}}", `p={{printf "%03d" .PC_REPLICA_NUM}}`, "e={{if eq .PC_REPLICA_NUM 0}}first{{end}}",
+		"b={{if gt .LN 5}}big{{else}}small{{end}}", `d={{printf "%05d" .LN}}`}
 	sp.CmdRest = tpls[rng.Intn(len(tpls))]
 	sp.Descr = tpls[rng.Intn(len(tpls))]
-	if rng.Intn(2) == 0 {
+	numericLN := strings.Contains(sp.CmdRest+sp.Descr, "gt .LN") // needs a defined integer LN to load at all
+	if rng.Intn(2) == 0 || numericLN {
 		sp.Vars = map[string]any{"LV": fmt.Sprintf("l%d", rng.Intn(9)), "LN": []int{3, 4096, 999999}[rng.Intn(3)]}
 		if i%9 == 4 {
 			sp.Vars["LN"] = 1000000 + rng.Intn(1000000) // numeric variable >= 1e6 (D19)
